@@ -29,6 +29,7 @@ def install(e):
     install_proxy_info(e)
     install_dispatcher_send(e)
     install_select(e)
+    install_app_api(e)
 
 
 # ===================================================================== C01: the convenience senders
@@ -278,3 +279,87 @@ def install_select(e):
                    doc="readiness test of the TLS select loop: pending decrypted bytes are reported at once; only when there are none does "
                        "it wait on the selector, for at most the dispatcher's timeout (ghost assertions select.no-wait-while-bytes-pending, "
                        "select.wait-is-the-dispatcher-timeout)"))
+
+
+# ===================================================================== C13-C15: the application's own send / close
+def install_app_api(e):
+    from .app import mk_app, has_transport, APPINV, app_ws_inv
+    P = "websocket._app:"
+    sendc = e.contracts[K + "WebSocket.send"]
+
+    # ---- WebSocketApp.close(**kwargs) ----------------------------------------------------------------------------
+    def cl_case(c):
+        app = mk_app(c, sock="opt")
+        return dict(self=app, kwargs=c.alloc("dict", None, {}))
+
+    def cl_req(c, a):
+        return APPINV(c, a["self"])
+
+    def cl_post(c, old, a, res):
+        app = a["self"]
+        had = has_transport(c, app, old)
+        return z3.And(z3.Not(z(c.getf(app, "keep_running"), "bool")), zn(c.getf(app, "sock")),
+                      z(c.ghost["closed_handles"]) == z(old.ghost["closed_handles"]) + z3.If(had, 1, 0))
+
+    def stopped_before_closing(c, fr, args):
+        """ghost assertion where close() starts the closing handshake: the run has already been told to stop.  The loop thread may
+        be woken by the socket being closed under it at any moment after this point; it treats what it sees as the orderly end of
+        the run only if keep_running is already False (C14: close() from another thread at any moment)."""
+        app = fr.locals["self"]
+        c.prove("close.keep_running-cleared-before-the-socket-is-closed", z3.Not(z(c.getf(app, "keep_running"), "bool")), c.last_call_node)
+    e.before_call[("WebSocketApp.close", "close")] = stopped_before_closing
+
+    def cl_mods(c, a):
+        app = a["self"]
+        from .app import app_ws
+        ws = app_ws.get(app.id)  # the connection object the app had at entry (sock is None afterwards)
+        closec = e.contracts[K + "WebSocket.close"]
+        inner = closec.modifies(c, dict(self=ws)) if isinstance(ws, Ref) else []
+        return [(app, "keep_running"), (app, "sock")] + inner
+    e.add(Contract(P + "WebSocketApp.close", cases=[("any", cl_case)], requires=cl_req, ensures=cl_post, modifies=cl_mods, inline_at_calls=True,
+                   props=("C14", "C15"),
+                   doc="the run is told to stop (keep_running' = False) before the closing handshake starts; the connection, if any, is "
+                       "closed (its transport released) and dropped (sock' = None); no exception escapes"))
+
+    # ---- WebSocketApp.send / send_text / send_bytes --------------------------------------------------------------
+    def snd_case(pname, shape, with_op):
+        def case(c):
+            app = mk_app(c, sock="opt")
+            d = {"self": app, pname: c.fresh(shape, pname)}
+            if with_op:
+                d["opcode"] = c.fresh("int", "opcode")
+            return d
+        return case
+
+    def amap(c, view, a, pname, opcode):
+        return dict(self=unopt(view.getf(a["self"], "sock")), payload=a[pname], opcode=a["opcode"] if opcode is None else opcode)
+
+    def snd_contract(name, pname, shapes, opcode):
+        no_conn = lambda c, old, a: zn(old.getf(a["self"], "sock"))
+
+        def post(c, old, a, res):
+            m = amap(c, old, a, pname, opcode)
+            return z3.And(z3.Not(no_conn(c, old, a)), sendc.ensures(c, old, m, c.ghost.get("$app_send_result")) if c.mode == "prove" and
+                          isinstance(c.ghost.get("$app_send_result"), SV) else z3.BoolVal(c.mode != "prove"))
+
+        def closed_post(c, old, a, exc):
+            # no connection: nothing is written
+            return z3.Implies(no_conn(c, old, a), z3.And(c.eq(z(c.ghost["wire"]), z(old.ghost["wire"])), z(c.ghost["tx_calls"]) == z(old.ghost["tx_calls"])))
+        raises = [(X.WebSocketConnectionClosedException, None, closed_post)]
+        for (cls, when, p_) in sendc.raises:
+            if cls is X.WebSocketConnectionClosedException:
+                continue
+            raises.append((cls, (lambda c, old, a, when=when: z3.And(z3.Not(no_conn(c, old, a)), when(c, old, amap(c, old, a, pname, opcode)))) if when
+                           else (lambda c, old, a: z3.Not(no_conn(c, old, a))),
+                           (lambda c, old, a, exc, p_=p_: p_(c, old, amap(c, old, a, pname, opcode), exc)) if p_ else None))
+        req = (lambda c, a: z3.And(APPINV(c, a["self"]), _b(True if tag_of(a[pname]) == "bytes" else z(a["opcode"]) == 1))) if opcode is None \
+            else (lambda c, a: APPINV(c, a["self"]))
+        e.add(Contract(P + f"WebSocketApp.{name}", cases=[(sh, snd_case(pname, sh, opcode is None)) for sh in shapes],
+                       requires=req, ensures=post, raises=raises,
+                       modifies=lambda c, a: ["ghost:wire", "ghost:tx_calls", "ghost:draws"], inline_at_calls=True, props=("C13",),
+                       doc="no connection: WebSocketConnectionClosedException, nothing written; otherwise exactly the frame WebSocket.send writes "
+                           "for that payload and opcode (text str as UTF-8)"))
+        e.after_call[(f"WebSocketApp.{name}", "send")] = lambda c, fr, r: c.ghost.__setitem__("$app_send_result", r)
+    snd_contract("send", "data", ("bytes", "str"), None)
+    snd_contract("send_text", "text_data", ("str",), 1)
+    snd_contract("send_bytes", "data", ("bytes", "bytearray"), 2)
